@@ -794,7 +794,7 @@ func (f *fixture) runLists(c *core.C, st *kStats) {
 var histLists = [][]kind{{kSendMe}, {kSendVic}, {kFail}, {kSendMe, kSendMe}}
 
 func (f *fixture) runHistories(c *core.C, st *kStats) {
-	depth := core.Pick(c, 2, 3)
+	depth := core.Pick(c, 2, 4)
 	nOps := 3 * len(histLists)
 	c.Set("k_history_depth", depth)
 	c.Set("k_history_ops", nOps)
